@@ -125,7 +125,9 @@ def rule_b(ctx):
     for r, c in bbr:
         ctx.bad('b', 'component_entropy', r, c.where(), 'Bbr::new seeds its gain-cycle generator from the thread RNG: with the BBR controller configured, replaying the same inputs yields different pacing/window traces')
     allowed = {'<EndpointConfig as Default>::default', 'ServerConfig::with_crypto', '<StdSystemTime as TimeSource>::now', 'Endpoint::new', 'Bbr::new',
-               '<RandomConnectionIdGenerator as ConnectionIdGenerator>::generate_cid', 'HashedConnectionIdGenerator::new', '<HashedConnectionIdGenerator as ConnectionIdGenerator>::generate_cid'}
+               '<RandomConnectionIdGenerator as ConnectionIdGenerator>::generate_cid', 'HashedConnectionIdGenerator::new', '<HashedConnectionIdGenerator as ConnectionIdGenerator>::generate_cid',
+               # feature `qlog` only: configuration default built by the application; start_time offsets the timestamps of the diagnostic log, not protocol state
+               '<QlogConfig as Default>::default'}
     for r, c in inv:
         ctx.check(r.short in allowed, 'b', 'entropy_or_clock_inventory', r, c.where(), 'behind a component boundary / configuration default', 'new clock/entropy use in quinn-proto: %s -> %s' % (r.short, short(c.f)))
 
